@@ -165,6 +165,9 @@ func (cl *ClightningClient) CreateCoopSpendingTransaction(swapParams *swap.Openi
 	if err != nil {
 		return "", "", "", err
 	}
+	if err := onchain.VerifyTakerSignature(takerSig, sigHashBytes[:], swapParams.TakerPubkey); err != nil {
+		return "", "", "", err
+	}
 	makerSig, err := claimParams.Signer.Sign(sigHashBytes[:])
 	if err != nil {
 		return "", "", "", err
